@@ -476,6 +476,185 @@ def oracle_sgroup(g, impl, run):
         run.violation("sum:self", "%s: dist2(x,x) = %r" % (what, outs[2][3]), rep)
 
 
+
+# ---- consumers of the metric through real objects: harmonic restraint, finite-difference velocity, harmonic walls ----
+def py_dist2(cls, P, a, b):
+    """independent recomputation of the squared distance of each kind"""
+    if cls == "scalar":
+        return (a[0] - b[0]) ** 2
+    if cls == "periodic":
+        d = a[0] - b[0]; d -= math.floor(d / P + 0.5) * P
+        return d * d
+    if cls == "vector":
+        return sum((u - v) ** 2 for u, v in zip(a, b))
+    c = max(-1.0, min(1.0, sum(u * v for u, v in zip(a, b))))
+    th = math.acos(c)
+    if cls == "quat" and c <= 0:
+        th = math.pi - th
+    return th * th
+
+
+class HGroup:
+    """a harmonic restraint on a real variable: energy/force at the value, at equivalent values/centres, and +/-h along a (tangent) direction"""
+    def __init__(self, r):
+        m = r.random()
+        self.P = None; self.c = 0.0; self.n = 1; self.manifold = False
+        if m < 0.30:
+            self.kind = r.choice(["dihedral", "spinAngle", "eulerPhi", "polarPhi", "dihedralSum"]); self.cls = "periodic"; self.P = 360.0; self.c = r.choice(WRAP_CENTRES)
+        elif m < 0.50:
+            self.P = r.choice([360.0, 2.0, 8.0, 25.0]); self.kind = "distanceZ:%r" % self.P; self.cls = "periodic"
+            self.c = r.choice([0.0, self.P / 2, -self.P / 4, self.P / 8, 3 * self.P])
+        elif m < 0.60:
+            self.P = r.choice(SCRIPTED_PERIODS); self.kind = "scripted:%r" % self.P; self.cls = "periodic"; self.c = r.choice([0.0, self.P / 2, -self.P / 4])
+        elif m < 0.68:
+            self.kind = r.choice(["distance", "tilt", "mixDihedralDistance", "lcScalar"]); self.cls = "scalar"
+        elif m < 0.80:
+            self.kind = "distanceDir"; self.cls = "unit"; self.n = 3; self.manifold = True
+        elif m < 0.92:
+            self.kind = "orientation"; self.cls = "quat"; self.n = 4; self.manifold = True
+        else:
+            self.kind = r.choice(["cartesian", "lcVec3"]); self.cls = "vector"; self.n = 6 if self.kind == "cartesian" else 3
+        P, c = self.P, self.c
+        self.k = r.choice([1.0, 2.0, 0.5, 10.0]); self.w = r.choice([1.0, 1.0, 0.5, 2.0, 10.0])
+        if self.cls == "periodic":
+            if r.random() < 0.5:
+                # value and centre on either side of the wrap boundary c + P/2 (e.g. centre 179, value -179)
+                dc = V.dyadic(r, 0.0, 0.125, bits=8) * P; dx = V.dyadic(r, 0.0, 0.125, bits=8) * P
+                xc = [c + P / 2 - dc]; x = [c - P / 2 + dx]
+                if r.random() < 0.5:
+                    x, xc = xc, x
+            else:
+                x = [V.dyadic(r, -2, 2, bits=8) * P]; xc = [V.dyadic(r, -2, 2, bits=8) * P]
+        elif self.cls == "scalar":
+            x = [V.dyadic(r, -50, 50)]; xc = [V.dyadic(r, -50, 50)]
+        elif self.cls == "unit":
+            x, xc = unit(r, 3), unit(r, 3)
+        elif self.cls == "quat":
+            x, xc = unit(r, 4), unit(r, 4)
+        else:
+            x = [V.dyadic(r, -9, 9) for _ in range(self.n)]; xc = [V.dyadic(r, -9, 9) for _ in range(self.n)]
+        self.x, self.xc = x, xc
+        self.lines = [self.ln(x, xc)]
+        self.inv = []
+        if self.cls == "periodic":
+            self.inv.append(len(self.lines)); self.lines.append(self.ln([x[0] + r.randint(-2, 2) * P], [xc[0] + r.randint(-2, 2) * P]))
+            self.inv.append(len(self.lines)); self.lines.append(self.ln([pywrap(x[0], c, P)], [pywrap(xc[0], c, P)]))
+        if self.cls == "quat":
+            self.inv.append(len(self.lines)); self.lines.append(self.ln([-a for a in x], xc))
+            self.inv.append(len(self.lines)); self.lines.append(self.ln(x, [-a for a in xc]))
+        # finite difference of the energy along a (tangent) direction
+        self.fd = None
+        if self.cls == "periodic":
+            d = (x[0] - xc[0]) / P; oncut = abs(d - round(d)) >= 0.49
+        elif self.manifold:
+            cc = sum(a * b for a, b in zip(x, xc))
+            oncut = cc <= -0.98 or cc >= 0.9999 if self.cls == "unit" else not (0.02 < abs(cc) < 0.999)
+        else:
+            oncut = False
+        if not oncut:
+            h = 1e-4 if self.manifold else (2.0 ** -9 * P if P else 2.0 ** -6)
+            if self.manifold:
+                e = tangent(r, x); xp, xm = move_on_sphere(x, e, h), move_on_sphere(x, e, -h)
+            else:
+                e = [float(r.randint(-2, 2)) for _ in x]
+                if not any(e):
+                    e[0] = 1.0
+                xp = [a + h * b for a, b in zip(x, e)]; xm = [a - h * b for a, b in zip(x, e)]
+            self.fd = (len(self.lines), e, h)
+            self.lines += [self.ln(xp, xc), self.ln(xm, xc)]
+
+    def ln(self, a, b):
+        return "HB %s %s %d %s %s %s %s" % (self.kind, hx(self.c), self.n, hx(self.k), hx(self.w), " ".join(map(hx, a)), " ".join(map(hx, b)))
+
+
+def oracle_hgroup(g, impl, run):
+    outs = [parse(impl[g.off + i]) for i in range(len(g.lines))]
+    rep = {"kind": "unit", "lines": g.lines, "impl": impl[g.off:g.off + len(g.lines)]}
+    sigk = g.kind.split(":")[0]
+    if any(o is None or len(o) != 1 + g.n for o in outs):
+        run.violation("restraint:%s:shape" % sigk, "no numeric result for %s: %s" % (g.lines[0], impl[g.off]), rep)
+        return
+    E, F = outs[0][0], outs[0][1:]
+    what = "harmonic restraint (k=%r, width=%r) on %s%s centred at %r, value %r" % (g.k, g.w, g.kind, " (wrapAround %r)" % g.c if g.P else "", g.xc, g.x)
+    want = 0.5 * g.k / (g.w * g.w) * py_dist2(g.cls, g.P, g.x, g.xc)
+    if not close(E, want, 1e-8):
+        run.violation("restraint:%s:energy" % sigk, "%s: energy %r, but 0.5 k/w^2 times the squared distance of the variable's metric is %r" % (what, E, want), rep)
+    for j in g.inv:
+        if not close(E, outs[j][0], 1e-8):
+            run.violation("restraint:%s:image" % sigk, "%s: energy changes from %r to %r for an equivalent value / centre (%s vs %s)" % (what, E, outs[j][0], g.lines[0], g.lines[j]), rep)
+    if g.fd:
+        j, e, h = g.fd
+        fdv = (outs[j][0] - outs[j + 1][0]) / (2 * h)
+        an = -sum(a * b for a, b in zip(F, e))
+        tol = 1e-5 if g.manifold else 1e-8
+        if not (abs(fdv - an) <= tol * max(1.0, abs(fdv), abs(an))):
+            run.violation("restraint:%s:force" % sigk, "%s: minus the reported force along %s is %r but the finite difference of the energy is %r" % (what, e, an, fdv), rep)
+
+
+def gen_consumers(r, n):
+    """FV (finite-difference velocity) and HW (harmonic walls) lines with their own checks"""
+    L = []
+    for _ in range(n):
+        if r.random() < 0.5:
+            P = r.choice([360.0, 8.0, 25.0]); c = r.choice([0.0, P / 2, -P / 4])
+            kind = r.choice(["dihedral", "polarPhi", "spinAngle"]) if P == 360.0 and r.random() < 0.5 else "distanceZ:%r" % P
+            if kind in ("dihedral", "polarPhi", "spinAngle"):
+                c = r.choice(WRAP_CENTRES)
+            dt = r.choice([1.0, 0.5, 2.0])
+            if r.random() < 0.5:      # a step across the wrap boundary
+                xo = c + P / 2 - V.dyadic(r, 0, 0.0625, bits=8) * P; xn = c - P / 2 + V.dyadic(r, 0, 0.0625, bits=8) * P
+                if r.random() < 0.5:
+                    xo, xn = xn, xo
+            else:
+                xo = V.dyadic(r, -1, 1, bits=8) * P; xn = xo + V.dyadic(r, -0.4, 0.4, bits=8) * P
+            L.append("FV %s %s 1 %s %s %s" % (kind, hx(c), hx(dt), hx(xo), hx(xn)))
+        else:
+            P = r.choice([360.0, 8.0, 0.0]); c = r.choice([0.0, P / 2, -P / 4]) if P else 0.0
+            sc = P if P else 10.0
+            lo = V.dyadic(r, -0.5, 0.5, bits=6) * sc + c; up = lo + V.dyadic(r, 0.0625, 0.75, bits=6) * sc
+            x = V.dyadic(r, -1.5, 1.5, bits=8) * sc + c
+            vals = [r.choice([1.0, 2.0, 0.5]), r.choice([1.0, 0.5, 2.0]), r.choice([1.0, 3.0]), r.choice([1.0, 0.25])]
+            L.append("HW %s %s %s %s %s %s" % (hx(P), hx(c), " ".join(map(hx, vals)), hx(lo), hx(up), hx(x)))
+            if P:
+                # the same walls and value replaced by periodic images (marked: compared with the line before)
+                L.append("HW %s %s %s %s %s %s IMG" % (hx(P), hx(c), " ".join(map(hx, vals)), hx(lo + r.randint(-1, 1) * P), hx(up + r.randint(-1, 1) * P), hx(x + r.randint(-2, 2) * P)))
+    return L
+
+
+def oracle_consumer(line, out, prev):
+    w = line.split(); o = parse(out)
+    if o is None:
+        return "no numeric result (%s)" % out
+    if w[0] == "FV":
+        kind = w[1]; c = float.fromhex(w[2]); dt, xo, xn = [float.fromhex(t) for t in w[4:7]]
+        P = float(kind.split(":")[1]) if ":" in kind else 360.0
+        disp = o[0] * dt
+        k = (xn - xo - disp) / P
+        if not (-P / 2 - 1e-9 <= disp <= P / 2 + 1e-9) or abs(k - round(k)) > 1e-9:
+            return "finite-difference velocity of %s (period %r) from %r to %r over dt=%r is %r: not the closest-image displacement over dt" % (kind, P, xo, xn, dt, o[0])
+    else:
+        P, c, k, wd, lk, uk, lo, up, x = [float.fromhex(t) for t in w[1:10]]
+        dist, E, F = o
+        if P:
+            im = lambda d: d - math.floor(d / P + 0.5) * P
+            dl, du = im(x - lo), im(x - up)
+            if abs(abs(dl) - abs(du)) < 1e-9 * P or abs(abs(dl) - P / 2) < 1e-9 * P or abs(abs(du) - P / 2) < 1e-9 * P:
+                return None       # equidistant from both walls / on the cut: ambiguous
+            want = (dl if dl < 0 else 0.0) if dl * dl < du * du else (du if du > 0 else 0.0)
+        else:
+            want = (x - lo) if x < lo else ((x - up) if x > up else 0.0)
+        if not close(dist, want, 1e-9):
+            return "harmonic walls [%r, %r] on a %s variable at %r: displacement %r, expected %r" % (lo, up, "periodic (period %r)" % P if P else "plain", x, dist, want)
+        sc = uk if dist > 0 else lk
+        if not close(E, 0.5 * k * sc / (wd * wd) * dist * dist, 1e-9) or not close(F, -k * sc / (wd * wd) * dist, 1e-9):
+            return "harmonic walls: energy %r / force %r do not follow from the displacement %r" % (E, F, dist)
+        if prev is not None and w[-1] == "IMG" and P:
+            po = parse(prev[1])
+            if po and (not close(po[1], E, 1e-9)):
+                return "harmonic walls on a periodic variable: energy changes from %r to %r when value and walls are replaced by periodic images (%s vs %s)" % (po[1], E, prev[0], line)
+    return None
+
+
 class OMGroup:
     """OPES kernel merge on a periodic variable: base and period images of either kernel centre"""
     def __init__(self, r):
@@ -515,7 +694,7 @@ def oracle_omgroup(g, impl, run):
 def gen_misc(r, n):
     L = []
     for k in range(n):
-        kind = r.choice(["WRAP", "WRAP", "ISC", "IV3", "IUV", "IVEC", "IQ", "IQ", "ACUV", "ACQ", "INN", "MR", "MR"])
+        kind = r.choice(["WRAP", "WRAP", "ISC", "IV3", "IUV", "IVEC", "IQ", "IQ", "ACUV", "ACQ", "INN", "AR", "AR", "ERR", "MR", "MR"])
         lam = r.choice([0.0, 1.0, 0.5, 0.25, V.dyadic(r, 0, 1, bits=6)])
         if kind == "WRAP":
             P = r.choice([360.0, 2.0, 1.0, 8.0, 0.5, 6.0]); c = V.dyadic(r, -4, 4, bits=2)
@@ -550,6 +729,19 @@ def gen_misc(r, n):
             else:
                 nn = r.randint(1, 5)
                 L.append("INN VEC %d %s %s" % (nn, " ".join(hx(V.dyadic(r, -9, 9)) for _ in range(nn)), " ".join(hx(V.dyadic(r, -9, 9)) for _ in range(nn))))
+        elif kind == "AR":
+            t = r.choice(["SC", "UV", "V3", "Q", "VEC"]); f = r.choice([2.0, -0.5, 0.25, 3.0])
+            if t == "SC":
+                L.append("AR SC %s %s %s" % (hx(f), hx(V.dyadic(r, -9, 9)), hx(V.dyadic(r, -9, 9))))
+            elif t in ("UV", "V3"):
+                L.append("AR %s %s %s %s" % (t, hx(f), " ".join(hx(V.dyadic(r, -9, 9)) for _ in range(3)), " ".join(hx(V.dyadic(r, -9, 9)) for _ in range(3))))
+            elif t == "Q":
+                L.append("AR Q %s %s %s" % (hx(f), " ".join(hx(V.dyadic(r, -9, 9)) for _ in range(4)), " ".join(hx(V.dyadic(r, -9, 9)) for _ in range(4))))
+            else:
+                nn = r.randint(1, 5)
+                L.append("AR VEC %s %d %s %s" % (hx(f), nn, " ".join(hx(V.dyadic(r, -9, 9)) for _ in range(nn)), " ".join(hx(V.dyadic(r, -9, 9)) for _ in range(nn))))
+        elif kind == "ERR":
+            L.append(r.choice(["ERR UVD", "ERR QD", "ERR IL %s" % hx(r.choice([-0.25, 1.5, 2.0]))]))
         elif kind == "MR":
             # moving restraint centre on a periodic variable: end points possibly several periods apart / outside the wrap interval
             P = r.choice([360.0, 2.0, 8.0, 0.5]); c = V.dyadic(r, -4, 4, bits=2)
@@ -574,7 +766,7 @@ def gen_obj(r, n):
             m = r.random()
             if m < 0.35:
                 P = r.choice(periods); c = V.dyadic(r, -4, 4, bits=2)
-                w += ["M", hx(P), hx(c)]
+                w += [r.choice(["M", "M", "S"]), hx(P), hx(c)]      # modifycvcs, or the engine-side colvar::set_cvc_param
             elif m < 0.75:
                 x = c + P / 2 * r.choice([-1, 1]) + r.randint(-2, 2) * P if r.random() < 0.3 else c + V.dyadic(r, -3, 3, bits=8) * P
                 w += ["W", hx(x)]
@@ -582,7 +774,7 @@ def gen_obj(r, n):
                 w += ["D", hx(V.dyadic(r, -9, 9) * P / 4), hx(V.dyadic(r, -9, 9) * P / 4)]
             else:
                 w += ["X", hx(V.dyadic(r, -9, 9) * P / 4), hx(V.dyadic(r, -9, 9) * P / 4)]
-        if "M" not in w:
+        if "M" not in w and "S" not in w:
             P = r.choice(periods); c = V.dyadic(r, -4, 4, bits=2)
             w += ["M", hx(P), hx(c), "W", hx(c + V.dyadic(r, -3, 3, bits=8) * P)]
         if "W" not in w and "D" not in w and "X" not in w:
@@ -600,7 +792,7 @@ def oracle_obj(line, out):
     P, c = float.fromhex(w[1]), float.fromhex(w[2])
     i = 3; k = 0
     while i < len(w):
-        if w[i] == "M":
+        if w[i] in ("M", "S"):
             P, c = float.fromhex(w[i + 1]), float.fromhex(w[i + 2]); i += 3
         elif w[i] == "W":
             x = float.fromhex(w[i + 1]); i += 2
@@ -678,6 +870,16 @@ def oracle_misc(line, out):
             return "inner product / squared norm of %r and %r reported as %r" % (a, b, o)
         if w[1] in ("UV", "Q") and abs(o[0]) > 1 + 1e-12:
             return "inner product of two values on the unit sphere is %r" % o[0]
+    elif w[0] == "AR":
+        f = float.fromhex(w[2])
+        v = [float.fromhex(t) for t in (w[4:] if w[1] == "VEC" else w[3:])]
+        nn = len(v) // 2; a, b = v[:nn], v[nn:]
+        want = [x + y for x, y in zip(a, b)] + [x - y for x, y in zip(a, b)] + [f * x for x in a] + [x / f for x in a]
+        if len(o) != 4 * nn or not all(close(x, y) for x, y in zip(o, want)):
+            return "colvarvalue arithmetic on %r and %r (factor %r): sum, difference, product, quotient reported as %r" % (a, b, f, o)
+    elif w[0] == "ERR":
+        if o != [1.0, 1.0]:
+            return "%s: a documented error (distance between derivative-type values / interpolation parameter outside [0,1]) was not raised" % line
     elif w[0] == "MR":
         P, c, x0, x1 = [float.fromhex(t) for t in w[1:5]]
         lams = [float.fromhex(t) for t in w[5:]]
@@ -706,17 +908,18 @@ def check(run):
                        "linearCombination with scalar / 3-vector value, gspathCV/gzpathCV/aspathCV/azpathCV; 6 wrapping centres): dist2/lgrad/rgrad base, swapped, identical, period image, wrapped arguments, sign flip, "
                        "colvar::wrap (30% on the interval edge), +/-h in each argument; OPES kernel-merge groups (base + period image of either centre, 30% across the wrap boundary); "
                        "wrap, interpolate (all types incl. quaternions: 20% opposite, 10% identical end points; 15% antipodal unit vectors), apply_constraints, inner/norm2, moving-restraint centres, "
-                       "sums of 1..5 components (angle, dihedral, distance, distanceZ with period 0/360/50/10, eulerPhi, polarPhi, spinAngle; coefficients +-1, 5% others; exponent 1, 4% 2; config order shuffled; 45% all of period 360 with, in 60% of those, "
+                       "real harmonic restraints on 20 kinds of variables (50% of periodic cases with centre and value on either side of the wrap boundary; equivalent values/centres; +/-h of the energy), "
+                       "harmonic walls and finite-difference velocities across the boundary, colvarvalue arithmetic, documented error branches; sums of 1..5 components (angle, dihedral, distance, distanceZ with period 0/360/50/10, eulerPhi, polarPhi, spinAngle; coefficients +-1, 5% others; exponent 1, 4% 2; config order shuffled; 45% all of period 360 with, in 60% of those, "
                        "one odd component anywhere; values whole periods of some component apart): colvar::init decision + dist2/lgrad/rgrad/wrap; distanceVec in triclinic cells (base, swapped, identical, lattice image, +/-h in each argument; never on the cut), pairs of unit vectors from the pool with opposites and one-ulp neighbours, "
                        "and histories on one periodic variable object (modifycvcs changes of period/wrapAround interleaved with colvar::wrap, colvar::dist2 and wrap-then-dist2 calls). "
                        "distinct = distinct base line; non-trivial = arguments differ")
     run.assumptions += ["theorems are about the R instance of the model; the tie runs the float instance and compares with relative tolerance 1e-9 (acos, sqrt) and exactly for dyadic cases",
                         "the model is of the code after the fix: commits of C18 (fix-C18-3: metric of sums of components with different periodicities; fix-C18: dist2_rgrad, wrap of spinAngle/eulerPhi/eulerPsi, periodic scripted distance, q/-q interpolation NaN)",
                         "NaN is outside the real-number model: the 0/0 of interpolating q and -q at 1/2 is seen by the oracle and the float tie only"]
-    groups = gen_groups(r, 700 if quick else 20000)
-    misc = gen_misc(r, 300 if quick else 8000)
+    groups = gen_groups(r, 500 if quick else 20000)
+    misc = gen_misc(r, 250 if quick else 8000)
     misc += gen_obj(r, 150 if quick else 3000)
-    cgroups = [CGroup(r) for _ in range(450 if quick else 15000)]
+    cgroups = [CGroup(r) for _ in range(350 if quick else 15000)]
     omgroups = [OMGroup(r) for _ in range(60 if quick else 1500)]
     tgroups = [TGroup(r) for _ in range(120 if quick else 4000)]
     # every pair of a pool of the tie's unit vectors (and their opposites / one-ulp neighbours): dist2 and gradient must be finite
@@ -725,15 +928,21 @@ def check(run):
     for i, u in enumerate(pool):
         for v in (u, [-t for t in u], [math.nextafter(t, 2.0) for t in u], [math.nextafter(t, -2.0) for t in u], pool[(i * 7 + 3) % len(pool)], pool[(i * 13 + 5) % len(pool)]):
             uvpairs.append(fmt("UV", "", u, v))
+    hgroups = [HGroup(r) for _ in range(180 if quick else 6000)]
+    cons = gen_consumers(r, 120 if quick else 4000)
     sgroups = [SGroup(r, (pos, how)) for pos in range(3) for how in range(4)] + [SGroup(r) for _ in range(150 if quick else 5000)]
     lines = []
-    for g in groups + cgroups + omgroups + tgroups + sgroups:
+    for g in groups + cgroups + omgroups + tgroups + sgroups + hgroups:
         g.off = len(lines)
         lines += g.lines
     uvoff = len(lines)
     lines += uvpairs
+    coff = len(lines)
+    lines += cons
     moff = len(lines)
     lines += misc
+    if os.environ.get("C18_DUMP_LINES"):
+        open(os.environ["C18_DUMP_LINES"], "w").write("\n".join(lines) + "\n")
     # the implementation is built and run in a thread while the property file is proved (the Print Assumptions of the theorems
     # dominate the wall time); the model is extracted and run afterwards
     side = {}
@@ -815,6 +1024,18 @@ def check(run):
         run.count(g.lines[0], g.x1 != g.x2)
         run.dist("comp:" + g.kind.split(":")[0])
         oracle_cgroup(g, impl, run)
+    for g in hgroups:
+        run.count(g.lines[0], g.x != g.xc)
+        run.dist("restraint:" + g.kind.split(":")[0])
+        oracle_hgroup(g, impl, run)
+    prev = None
+    for i, l in enumerate(cons):
+        run.count(l, True)
+        run.dist("consumer:" + l.split()[0])
+        bad = oracle_consumer(l, impl[coff + i], prev)
+        if bad:
+            run.violation("consumer:" + l.split()[0], bad, {"kind": "unit", "lines": [l] if prev is None else [prev[0], l], "impl": [impl[coff + i]]})
+        prev = (l, impl[coff + i])
     for g in sgroups:
         run.count(g.lines[0], g.x1 != g.x2)
         run.dist("sum:n=%d:%s" % (len(g.comps), "periodic" if g.P is not None else "plain"))
